@@ -114,6 +114,36 @@ def trace_record(run, text, optargs, cfgrec, cfgt, keeppen=0, name=""):
                 if len(first) > 16:
                     star = 1 if first[16] == "*" else 0
             g["star"] = star
+    # one residue name per position: in the input (per model; records without alt-loc label are shared by every
+    # conformation, labelled ones belong to one) and in each conformation of the run
+    names_at = {}
+    mdl = 1
+    for j, ln in enumerate(idx.lines):
+        if ln[:6] == "MODEL ":
+            try:
+                mdl = int(ln[6:].split()[0])
+            except (ValueError, IndexError):
+                mdl += 1
+        r_ = idx.recs[j]
+        if r_ is None:
+            continue
+        names_at.setdefault((mdl, r_.chain, r_.num, r_.icode), {}).setdefault(r_.alt or " ", set()).add(r_.resn.strip())
+    onetype = 1
+    for key_, byalt in names_at.items():
+        blank = byalt.get(" ", set())
+        if len(blank) > 1 or any(len(v) > 1 for v in byalt.values()) or (blank and any(v != blank for v in byalt.values())):
+            onetype = 0
+    resat = {}
+    for cname in rec["confs"]:
+        seen = []
+        for a in run.mol.conformations[cname].atoms:
+            if a.element == "H":
+                continue        # (hydrogens built by the program carry no insertion code)
+            t = [a.chain_id, a.res_num, a.icode or " ", a.res_name.strip()]
+            if t not in seen:
+                seen.append(t)
+        resat[str(cname)] = seen
+    rec["onetype"], rec["resat"] = onetype, resat
     slim = [{k: r[k] for k in ("pos", "model", "chain", "num", "ic", "resn", "het", "names", "nter", "ign")} for r in inres]
     rec.update({"name": name, "opts": {"chains": chains, "tonly": tonly, "tlist": tlist, "keeppen": keeppen},
                 "inres": slim, "bridged": bridged, "census": census, "cfg": cfgrec,
@@ -126,7 +156,7 @@ def trace_record(run, text, optargs, cfgrec, cfgt, keeppen=0, name=""):
 
 RUN_INV = {
     "C01": ["C01_Census", "C01_ExactlyOnce", "C01_Bridge", "C01_Ligands", "C01_SummaryNotPenalised",
-            "C01_SummaryNothingElse", "C01_SummaryPenalisedToo", "C01_SummaryModel"],
+            "C01_SummaryNothingElse", "C01_SummaryPenalisedToo", "C01_SummaryModel", "C01_OneResiduePerPosition"],
     "C02": ["C02_SumIdentity", "C02_RenderedTable", "C02_RenderedSummary"],
     "C15": ["C15_Symmetric", "C15_StarIffPartner", "C15_FileStars"],
     "C16": ["C16_Desolvation", "C16_Buried", "C16_Backbone", "C16_CoulombSign", "C16_CoulombBound",
@@ -190,7 +220,9 @@ def base_cases(ctx):
     # run-level property sees them, not only C08
     from .props import c08
     multi = dict(c08.constructed(ctx))
-    for n in ("alt-rotamers-AB", "mutant-A-ASP-B-ASN", "identical-models-1-2", "model2-missing-atoms", "nterm-residue-altAB"):
+    for n in ("alt-rotamers-AB", "mutant-A-ASP-B-ASN", "identical-models-1-2", "model2-missing-atoms", "nterm-residue-altAB",
+              "mutant-A-ASP-B-ASN+altABC-elsewhere", "mutant-B-ASP-C-ASN+altABC-elsewhere", "models-ASP-ASN-unmodelled",
+              "models-unmodelled-ASN-ASP"):
         if n in multi:
             cases.append((n, multi[n], []))
     # two copies of one ligand in one chain (hetero group labels carry no residue number), a residue that kept its
